@@ -21,17 +21,22 @@ Proof. exact resolve_err_is_resolve. Qed.
 Theorem builtin_aliases_resolve : check_type_table (Z.to_nat resolve_bound) type_table = true.
 Proof. exact type_table_ok. Qed.
 
-(* the comment stripper copies text without quotes and slashes unchanged and replaces a block comment by the newlines it contains *)
+(* the comment stripper copies text without quotes and slashes unchanged and replaces a block comment by the newlines it contains (by one blank when it contains none: the tokens around a comment stay apart), and a line comment - which ends in front of the first carriage return or line feed - by one blank *)
 Theorem strip_keeps_plain_text : forall l, forallb plain l = true -> forall f r, strip_go (length l + f) (l ++ r) = l ++ strip_go f r.
 Proof. exact strip_go_plain. Qed.
 Theorem strip_block_comment_to_newlines : forall body rest f, no_close (body ++ [cST]) = true ->
-  strip_go (S f) (cSL :: cST :: body ++ cST :: cSL :: rest) = newlines_of body ++ strip_go f rest.
+  strip_go (S f) (cSL :: cST :: body ++ cST :: cSL :: rest) = comment_repl body ++ strip_go f rest.
 Proof. exact strip_block_comment. Qed.
+Theorem strip_line_comment_to_blank : forall body rest f, no_eol body = true -> (match rest with [] => True | e :: _ => (e =? cNL) || (e =? cCR) = true end) ->
+  strip_go (S f) (cSL :: cSL :: body ++ rest) = 32 :: strip_go f rest.
+Proof. exact strip_line_comment. Qed.
 
 Print Assumptions resolve_alias_same.
 Print Assumptions resolve_cycle_err.
 Print Assumptions strip_keeps_plain_text.
 Print Assumptions strip_block_comment_to_newlines.
+Print Assumptions strip_line_comment_to_blank.
 
-Example ex_strip : strip_comments [97; 47; 42; 120; 10; 121; 42; 47; 98; 47; 47; 99] = [97; 10; 98].
-Proof. vm_compute. reflexivity. Qed.
+Example ex_strip : strip_comments [97; 47; 42; 120; 10; 121; 42; 47; 98; 47; 47; 99] = [97; 10; 98; 32] /\
+  strip_comments [97; 47; 42; 120; 42; 47; 98; 47; 47; 99; 13; 10; 100] = [97; 32; 98; 32; 13; 10; 100].
+Proof. vm_compute. split; reflexivity. Qed.
